@@ -445,17 +445,61 @@ func c19RunReqMsg(m c19ReqMsg) (outcome string, fail *explore.Fail) {
 		werr = rs.sendRequestTrailer(req)
 		explore.Must(werr == nil, "sendRequestTrailer: %v", werr)
 	}
+	return c19JudgeReqWire(m, req, valid, werr, fake.out.Bytes(), "")
+}
+
+// c19TryReadHeadersFrame reads one HEADERS frame with the real frame parser; what = "" on
+// success, "end" when the stream is exhausted, otherwise what is wrong with the framing.
+func c19TryReadHeadersFrame(r *bytes.Reader) (block []byte, hf *headersFrame, what string) {
+	if r.Len() == 0 {
+		return nil, nil, "end"
+	}
+	fr, err := (&frameParser{r: r}).ParseNext(nil)
+	hf, ok := fr.(*headersFrame)
+	if err != nil || !ok {
+		return nil, nil, fmt.Sprintf("not-a-headers-frame (%T %v)", fr, err)
+	}
+	if hf.Length > uint64(r.Len()) {
+		return nil, nil, fmt.Sprintf("truncated-headers-frame (announces %d bytes, %d follow)", hf.Length, r.Len())
+	}
+	block = make([]byte, hf.Length)
+	_, err = io.ReadFull(r, block)
+	explore.Must(err == nil, "short read from a bytes.Reader")
+	return block, hf, ""
+}
+
+// c19JudgeReqWire is the oracle of the request writer: `wire` is everything the stream of the
+// request consumed. It is parsed back by the real receive path and compared with the fields the
+// message has. where = "" for one message on a fresh writer (part writer-request); otherwise it
+// names the connection scenario and the stream (part writer-request-conn) and the keys start with
+// "writer-request-conn". A stream whose bytes are not a HEADERS frame (+ an optional trailer
+// HEADERS frame) and nothing else is a violation too (stream-garbled): what was emitted for the
+// message is not accepted by the peer.
+func c19JudgeReqWire(m c19ReqMsg, req *http.Request, valid bool, werr error, wire []byte, where string) (outcome string, fail *explore.Fail) {
+	pfx, at := "writer-request", ""
+	if where != "" {
+		pfx, at = "writer-request-conn", "@"+where
+	}
 	class := "valid message"
 	if !valid {
 		class = "invalid message"
 	}
 	if werr != nil {
+		if len(wire) != 0 { // the statement is silent about what a refused message leaves behind
+			return class + ": writer refuses (" + c19ShortErr(werr) + "), bytes on the stream", nil
+		}
 		return class + ": writer refuses (" + c19ShortErr(werr) + ")", nil
 	}
 	// the server side
-	r := bytes.NewReader(fake.out.Bytes())
-	block, _, ok := c19ReadHeadersFrame(r)
-	explore.Must(ok, "no HEADERS frame written")
+	r := bytes.NewReader(wire)
+	block, _, bad := c19TryReadHeadersFrame(r)
+	if bad != "" {
+		if !valid {
+			return class + ": written, not a HEADERS frame", nil
+		}
+		return "", explore.Failf(pfx+"/stream-garbled:"+strings.SplitN(bad, " ", 2)[0]+at,
+			"the bytes the stream of this request consumed (%d) do not start with a complete HEADERS frame: %s", len(wire), bad)
+	}
 	dec := qpack.NewDecoder()
 	got, err := requestFromHeaders(dec.Decode(block), c19WriterLimit, nil)
 	if !valid {
@@ -469,19 +513,19 @@ func c19RunReqMsg(m c19ReqMsg) (outcome string, fail *explore.Fail) {
 	if err != nil {
 		emitted := c19DecodeAll(block)
 		if cl := c19EmitClause(c19Req, emitted); cl != "" {
-			return "", explore.Failf("writer-request/emits-malformed:"+cl,
+			return "", explore.Failf(pfx+"/emits-malformed:"+cl+at,
 				"the request writer emits a field section that violates %v and its own parser rejects it (%v); emitted %v", c19JudgeAll(c19Req, emitted), err, c19Shown(emitted))
 		}
-		return "", explore.Failf("writer-request/output-rejected:"+c19ShortErr(err),
+		return "", explore.Failf(pfx+"/output-rejected:"+c19ShortErr(err)+at,
 			"the parser rejects what the request writer emitted for a valid message: %v; emitted %v", err, c19Shown(emitted))
 	}
 	if cl := c19EmitClause(c19Req, c19DecodeAll(block)); cl != "" {
 		// (accepted => well-formed) and (emitted => accepted) leave no room for this
-		return "", explore.Failf("writer-request/emits-malformed-accepted:"+cl,
+		return "", explore.Failf(pfx+"/emits-malformed-accepted:"+cl+at,
 			"the request writer emits a field section that violates %v and the parser accepts it; emitted %v", c19JudgeAll(c19Req, c19DecodeAll(block)), c19Shown(c19DecodeAll(block)))
 	}
 	if g, w := c19RenderRequest(got), c19ModelRequest(c19ViewOf(want)); g != w {
-		return "", explore.Failf("writer-request/fields-differ:"+c19DiffTag(g, w),
+		return "", explore.Failf(pfx+"/fields-differ:"+c19DiffTag(g, w)+at,
 			"parse(write(request)) differs from the message\n   got  %s\n   want %s\n   emitted %v", c19Trunc(g), c19Trunc(w), c19Shown(c19DecodeAll(block)))
 	}
 	hdr, err := parseHeaders(qpack.NewDecoder().Decode(block), true, c19WriterLimit, nil)
@@ -494,7 +538,7 @@ func c19RunReqMsg(m c19ReqMsg) (outcome string, fail *explore.Fail) {
 		hdr.Headers["Trailer"] = []string{strings.Join(names, ", ")}
 	}
 	if g, w := c19RenderParsed(hdr), c19ModelParsed(c19ViewOf(want)); g != w {
-		return "", explore.Failf("writer-request/pseudo-or-fields-differ:"+c19DiffTag(g, w),
+		return "", explore.Failf(pfx+"/pseudo-or-fields-differ:"+c19DiffTag(g, w)+at,
 			"parseHeaders(write(request)) differs from the message\n   got  %s\n   want %s", c19Trunc(g), c19Trunc(w))
 	}
 	out := class + ": round trip ok, " + strings.ToLower(m.Method)
@@ -512,11 +556,15 @@ func c19RunReqMsg(m c19ReqMsg) (outcome string, fail *explore.Fail) {
 	}
 	// trailers
 	wantT := m.expectTrailers()
-	tblock, thf, ok := c19ReadHeadersFrame(r)
+	tblock, thf, bad := c19TryReadHeadersFrame(r)
 	switch {
-	case !ok && len(wantT) > 0:
-		return "", explore.Failf("writer-request/trailers-not-written", "request has trailers %v but no trailer section was written", wantT)
-	case ok:
+	case bad == "end" && len(wantT) > 0:
+		return "", explore.Failf(pfx+"/trailers-not-written"+at, "request has trailers %v but no trailer section was written", wantT)
+	case bad == "end":
+	case bad != "":
+		return "", explore.Failf(pfx+"/stream-garbled:after-header:"+strings.SplitN(bad, " ", 2)[0]+at,
+			"the request section is followed on its stream by bytes that are not a complete HEADERS frame: %s", bad)
+	default:
 		gotT, err := decodeTrailers(bytes.NewReader(tblock), thf, c19WriterLimit, dec, nil, 0)
 		if err != nil {
 			emitted := c19DecodeAll(tblock)
@@ -524,14 +572,16 @@ func c19RunReqMsg(m c19ReqMsg) (outcome string, fail *explore.Fail) {
 			if cl := c19EmitClause(c19Trl, emitted); cl != "" {
 				key = "emits-malformed:" + cl
 			}
-			return "", explore.Failf("writer-request-trailers/"+key, "the parser rejects the trailer section the request writer emitted: %v; emitted %v", err, c19Shown(emitted))
+			return "", explore.Failf(pfx+"-trailers/"+key+at, "the parser rejects the trailer section the request writer emitted: %v; emitted %v", err, c19Shown(emitted))
 		}
 		if g, w := c19RenderHeader(gotT), c19RenderHeader(wantT); g != w {
-			return "", explore.Failf("writer-request-trailers/fields-differ", "parse(write(trailers)) = %s, the request has %s", g, w)
+			return "", explore.Failf(pfx+"-trailers/fields-differ"+at, "parse(write(trailers)) = %s, the request has %s", g, w)
 		}
 		out += ", trailers sent"
 	}
-	explore.Must(r.Len() == 0, "unexpected extra bytes after the request")
+	if r.Len() != 0 {
+		return "", explore.Failf(pfx+"/stream-garbled:extra-bytes"+at, "%d bytes follow the request's field section(s) on its stream", r.Len())
+	}
 	return out, nil
 }
 
